@@ -251,3 +251,22 @@ def session_cancel_in_flight(exe):
     out = {str(i): len(c.responses(i)) for i in ids + [13]}
     c.stop()
     return out
+
+
+def session_bad_initialize(exe):
+    """an `initialize` whose params do not deserialize must be answered (with an error); a later valid one is served"""
+    c = Client(exe)
+    root = "file://" + c.d
+    c.request(0, "initialize", {"processId": None, "rootUri": root, "capabilities": 42})
+    c.wait(0, 10)
+    c.request(1, "initialize", {"processId": None, "rootUri": root, "capabilities": {}, "workspaceFolders": [{"uri": root, "name": "w"}]})
+    c.wait(1, 30)
+    c.notify("initialized", {})
+    time.sleep(1.0)
+    c.request(2, "textDocument/hover", HOVER)
+    c.wait(2, 60)
+    time.sleep(0.3)
+    out = {str(i): len(c.responses(i)) for i in (0, 1, 2)}
+    out["alive"] = c.p.poll() is None
+    c.stop()
+    return out
